@@ -38,8 +38,8 @@ Domain == [ sealedBy   |-> {"sel", "oRealm", "oKvno", "oPrinc", "oEtype", "prefi
             authKey    |-> {"session", "other"},
             authUsage  |-> {"right", "other"},
             authCipher |-> {"intact", "flipped", "truncated"},
-            cname      |-> {"match", "differs", "empty"},
-            crealm     |-> {"match", "differs"},
+            cname      |-> {"match", "differs", "empty", "caseOnly"},      \* caseOnly: the same letters in another case (names are case sensitive)
+            crealm     |-> {"match", "differs", "caseOnly"},
             ctime      |-> {"now", "pastInside", "pastOutside", "futureInside", "futureOutside"},
             pac        |-> PacValues ]
 Fields == DOMAIN Domain
